@@ -7,6 +7,38 @@ import os
 ROOT = os.path.dirname(os.path.dirname(os.path.abspath(__file__)))
 
 
+def commit_of_patch(patch_rel):
+    """hash of the /repo commit whose subject equals the patch's Subject line"""
+    import re
+    import subprocess
+
+    path = os.path.join(ROOT, patch_rel)
+    if not os.path.exists(path):
+        return None
+    text = open(path, encoding="utf-8", errors="replace").read()
+    m = re.search(r"^Subject: (?:\[PATCH[^\]]*\] )?(.*(?:\n .*)*)", text, re.M)
+    if not m:
+        return None
+    subject = " ".join(x.strip() for x in m.group(1).split("\n"))
+    log = subprocess.run(["git", "-C", "/repo", "log", "--format=%h %s"], stdout=subprocess.PIPE, text=True).stdout
+    for line in log.split("\n"):
+        h, _, subj = line.partition(" ")
+        if subj.strip() == subject:
+            return h
+    return None
+
+
+def with_hash(entry):
+    """`fixed: property=Cxx fixes/<patch> ...` -> `fixed: property=Cxx <commit> (fixes/<patch>) ...`"""
+    import re
+
+    m = re.match(r"(fixed: property=\S+ )(fixes/\S+\.patch)(.*)", entry, re.S)
+    if not m:
+        return entry
+    h = commit_of_patch(m.group(2))
+    return "%s%s (%s)%s" % (m.group(1), h, m.group(2), m.group(3)) if h else entry
+
+
 def main():
     out = {"findings": [], "fixed": []}
     d = os.path.join(ROOT, "findings")
@@ -14,7 +46,7 @@ def main():
         if fn.endswith(".json"):
             frag = json.load(open(os.path.join(d, fn)))
             out["findings"] += frag.get("findings", [])
-            out["fixed"] += frag.get("fixed", [])
+            out["fixed"] += [with_hash(e) for e in frag.get("fixed", [])]
     with open(os.path.join(ROOT, "known_findings.json"), "w") as f:
         json.dump(out, f, indent=1, ensure_ascii=False)
     print("known_findings.json: %d findings, %d fixed" % (len(out["findings"]), len(out["fixed"])))
